@@ -62,12 +62,13 @@ Section ReloadFacts.
         repeat match goal with H : exists _, _ |- _ => destruct H end; intuition (try discriminate; try congruence).
   Qed.
 
-  (** A successful reload is exactly the two critical sections, in the order loadAuth, updateAll,
-      and the compiled configuration that was read becomes the running one. *)
+  (** A successful reload is exactly ONE critical section assigning all fourteen fields (its two halves
+      in the order authenticators, tables), and the compiled configuration that was read becomes the running one. *)
   Lemma reload_success : forall running r r' ret,
     reload' running r = (r', ret, Reloaded) ->
     exists d cfg a, read_file = Some d /\ parse d = Some cfg /\ compile cfg = Some ret /\
                     requires_restart ret running = false /\ load_secrets ret = Some a /\
+                    r' = write_reload compiled authset inherit a ret r /\
                     r' = write_tables compiled authset ret (write_auth compiled authset inherit a r).
   Proof.
     intros running r r' ret H. unfold reload', reload in H.
@@ -121,7 +122,11 @@ Proof.
   destruct p; reflexivity.
 Qed.
 
-Lemma reload_prog_success : exec (fun _ => false) reload_prog = ([WAuth; WTables], None).
+Lemma reload_prog_success : exec (fun _ => false) reload_prog = ([[WAuth; WTables]], None).
+Proof. reflexivity. Qed.
+
+(** the design before 337ce64 performed two sections *)
+Lemma two_write_prog_success : exec (fun _ => false) two_write_prog = ([[WAuth]; [WTables]], None).
 Proof. reflexivity. Qed.
 
 (** * 2. Atomic visibility *)
@@ -301,93 +306,127 @@ Proof.
   - intros r Hr. apply repeat_spec in Hr. subst. simpl. lia.
 Qed.
 
-(** What IS atomic on the pinned code: a handler that consults the state once, inside one of the two
-    groups (e.g. admin authorisation, or any single authenticator lookup). *)
-Lemma code_shape_sections_ok : sections_ok code_shape.
+(** * The code since 337ce64: ONE critical section per reload *)
+
+Lemma code_fields_complete f : In f (auth_fields ++ table_fields).
+Proof. destruct f; simpl; tauto. Qed.
+
+Lemma set_code_fields_uniform v (r : vrt) : set_fields (auth_fields ++ table_fields) v r = uniform v.
+Proof. destruct r. reflexivity. Qed.
+
+Lemma writes_from_bound shape : forall m k,
+  Forall (fun wv : list field * nat => k <= snd wv < k + m) (writes_from shape k m).
 Proof.
-  intros w1 w2 H1 H2. simpl in H1, H2.
-  destruct H1 as [H1|[H1|[]]], H2 as [H2|[H2|[]]]; subst; auto; right; intros f Hf Hg;
-    simpl in Hf, Hg; intuition congruence.
+  induction m as [|m IH]; intros k; simpl; [constructor|].
+  apply Forall_app. split.
+  - apply Forall_forall. intros x Hx. apply in_map_iff in Hx. destruct Hx as [w [Hw _]]. subst. simpl. lia.
+  - eapply Forall_impl; [|apply (IH (S k))]. intros a Ha. simpl in Ha. lia.
 Qed.
 
-Definition single_group_callback (c : callback) : bool :=
-  match c with
-  | CAuthorizePull | CAuthorizeWorker | CSnapshot => false
-  | _ => true
-  end.
+(** Every reachable runtime state is [uniform v]: all fourteen fields come from the same configuration
+    (the start-up one, v = 0, or the v-th reload).  There is no state "between the halves" of a reload
+    for any request step to observe. *)
+Definition rinv (n : nat) (s : sstate) : Prop :=
+  (exists v, v <= n /\ s_rt s = uniform v)
+  /\ Forall (fun wv => fst wv = auth_fields ++ table_fields /\ snd wv <= n) (s_writes s).
 
-Lemma single_group_within c : single_group_callback c = true -> within_section code_shape c.
+Lemma rinv_step n s a : rinv n s -> rinv n (sstep s a).
 Proof.
-  destruct c; simpl; intros H; try discriminate;
-    try (exists table_fields; split; [simpl; tauto|simpl; intros f Hf; intuition (subst; tauto)]);
-    try (exists auth_fields; split; [simpl; tauto|simpl; intros f Hf; intuition (subst; tauto)]).
+  intros [[v [Hv Hu]] Hw]. destruct a as [|i]; simpl.
+  - destruct (s_writes s) as [|[fs v'] tl] eqn:E; [split; [exists v; auto|rewrite E; constructor]|].
+    inversion Hw as [|x l [Hfs Hle] Htl]; subst. cbn [fst snd] in Hfs, Hle. subst fs.
+    split; [|exact Htl]. exists v'. split; [exact Hle|]. cbn [s_rt]. apply set_code_fields_uniform.
+  - split; simpl; [exists v; auto|exact Hw].
 Qed.
 
-Theorem code_single_callback_atomic : forall reqs,
-  (forall r, In r reqs -> exists c, r = [c] /\ single_group_callback c = true) ->
-  no_mixture code_shape reqs.
+Lemma reload_single_write : forall n reqs sched,
+  exists v, v <= n /\ s_rt (run_schedule code_shape n reqs sched) = uniform v.
 Proof.
-  intros reqs H. apply single_section_atomic; [apply code_shape_sections_ok|].
-  intros r Hr. destruct (H r Hr) as [c [Hc Hs]]. subst r. split; [simpl; lia|].
-  intros c' [Hc'|[]]. subst c'. apply single_group_within. exact Hs.
+  intros n reqs sched. unfold run_schedule.
+  assert (H0 : rinv n (sinit code_shape n reqs)).
+  { split; simpl; [exists 0; split; [lia|reflexivity]|].
+    unfold writes_of. pose proof (writes_from_bound code_shape n 1) as Hb.
+    assert (Hs : Forall (fun wv : list field * nat => In (fst wv) code_shape) (writes_from code_shape 1 n))
+      by apply writes_from_in_shape.
+    rewrite Forall_forall in *. intros x Hx. specialize (Hb x Hx). specialize (Hs x Hx).
+    simpl in Hs. destruct Hs as [Hs|[]]. split; [symmetry; exact Hs|lia]. }
+  generalize dependent (sinit code_shape n reqs).
+  induction sched as [|a tl IH]; intros s Hs; simpl.
+  - destruct Hs as [H _]. exact H.
+  - apply IH. apply rinv_step. exact Hs.
 Qed.
 
-(** ** Refutations on the pinned code (concrete schedules) *)
+(** Consequently every single locked read - also the ones that span both groups, like authorizePull -
+    sees one version, for all schedules. *)
+Theorem code_single_read_atomic : forall reqs,
+  (forall r, In r reqs -> length r <= 1) -> no_mixture code_shape reqs.
+Proof.
+  intros reqs H. apply snapshot_design_atomic; [|exact H].
+  intros r c f _ _ _. apply code_fields_complete.
+Qed.
 
-(** (1) Two lock acquisitions in reloadConfig.  The request is ONE locked read (authorizePull reads the
-    bearer allowlists and pathToRoute in the same critical section), so the request side is not the cause. *)
+(** ** The design before 337ce64 (two critical sections) had a window.  A statement about that
+    hypothetical design, not about the code: the witness request is ONE locked read (authorizePull
+    reads the bearer allowlists and pathToRoute in the same critical section). *)
 Definition window_schedule : schedule := [AReload; AReq 0; AReload].
 
-Lemma two_lock_window_witness :
-  observations code_shape 1 [[CAuthorizePull]] window_schedule
+Lemma two_write_window_witness :
+  observations two_write_shape 1 [[CAuthorizePull]] window_schedule
   = [[(CAuthorizePull, FPullAuth, 1); (CAuthorizePull, FPullByRoute, 1); (CAuthorizePull, FPathToRoute, 0)]].
 Proof. vm_compute. reflexivity. Qed.
 
-Lemma two_lock_window_refuted : ~ no_mixture code_shape [[CAuthorizePull]].
+Lemma two_write_reload_has_window : ~ no_mixture two_write_shape [[CAuthorizePull]].
 Proof. intros H. specialize (H 1 window_schedule). vm_compute in H. discriminate. Qed.
 
-(** the whole ingress request runs inside the window *)
-Definition window_ingress_schedule : schedule :=
-  [AReload] ++ repeat (AReq 0) 8 ++ [AReload].
-
-Lemma two_lock_window_ingress_refuted :
-  P_no_mixture (observations code_shape 1 [ingress_request] window_ingress_schedule) = false.
+Lemma two_write_window_ingress :
+  P_no_mixture (observations two_write_shape 1 [ingress_request] ([AReload] ++ repeat (AReq 0) 8 ++ [AReload])) = false.
 Proof. vm_compute. reflexivity. Qed.
 
-(** (2) Several independent locked reads per request.  The reload is ONE write of everything, so the
-    reload side is not the cause. *)
+(** ... and the same schedules are harmless for the code as it is now *)
+Lemma code_window_schedules_fine :
+  P_no_mixture (observations code_shape 1 [[CAuthorizePull]] window_schedule) = true
+  /\ P_no_mixture (observations code_shape 1 [ingress_request] ([AReload] ++ repeat (AReq 0) 8 ++ [AReload])) = true.
+Proof. split; vm_compute; reflexivity. Qed.
+
+(** ** Refutation on the code as it is: several independent locked reads per request. *)
 Definition between_schedule (k : nat) : schedule := repeat (AReq 0) k ++ [AReload] ++ repeat (AReq 0) (8 - k).
 
 Lemma per_request_reads_witness :
-  map versions_seen (observations single_write_shape 1 [ingress_request] (between_schedule 1))
+  map versions_seen (observations code_shape 1 [ingress_request] (between_schedule 1))
   = [[0; 1; 1; 1; 1; 1; 1; 1; 1]].
 Proof. vm_compute. reflexivity. Qed.
 
-Lemma per_request_reads_refuted : ~ no_mixture single_write_shape [ingress_request].
+Lemma per_request_reads_refuted : ~ no_mixture code_shape [ingress_request].
 Proof. intros H. specialize (H 1 (between_schedule 1)). vm_compute in H. discriminate. Qed.
 
 (** ... for every position strictly inside the request. *)
 Lemma per_request_reads_every_position :
-  forallb (fun k => negb (P_no_mixture (observations single_write_shape 1 [ingress_request] (between_schedule k))))
+  forallb (fun k => negb (P_no_mixture (observations code_shape 1 [ingress_request] (between_schedule k))))
           [1; 2; 3; 4; 5; 6; 7] = true.
 Proof. vm_compute. reflexivity. Qed.
 
-Lemma per_request_reads_pull_refuted : ~ no_mixture single_write_shape [pull_request].
+Lemma per_request_reads_pull_refuted : ~ no_mixture code_shape [pull_request].
 Proof. intros H. specialize (H 1 [AReq 0; AReload; AReq 0]). vm_compute in H. discriminate. Qed.
 
-Lemma per_request_reads_admin_refuted : ~ no_mixture single_write_shape [admin_publish_request].
+Lemma per_request_reads_admin_refuted : ~ no_mixture code_shape [admin_publish_request].
 Proof. intros H. specialize (H 1 [AReq 0; AReq 0; AReload; AReq 0]). vm_compute in H. discriminate. Qed.
 
-(** The pinned code as it is (both causes present). *)
 Lemma code_no_mixture_refuted : ~ no_mixture code_shape [ingress_request; pull_request].
 Proof.
-  intros H. specialize (H 1 [AReq 0; AReload; AReload; AReq 0; AReq 0; AReq 0]). vm_compute in H. discriminate.
+  intros H. specialize (H 1 [AReq 0; AReload; AReq 0; AReq 0; AReq 0]). vm_compute in H. discriminate.
 Qed.
 
-(** Non-vacuity of the positive theorem: a schedule with real interleaving, snapshot design, one version each. *)
+(** Non-vacuity of the positive theorems: schedules with real interleaving, one version each. *)
 Example snapshot_example :
   map versions_seen
       (observations single_write_shape 2 [[CSnapshot]; [CSnapshot]; [CSnapshot]]
                     [AReq 0; AReload; AReq 1; AReload; AReq 2])
   = [repeat 0 14; repeat 1 14; repeat 2 14].
+Proof. vm_compute. reflexivity. Qed.
+
+Example single_read_example :
+  map versions_seen
+      (observations code_shape 2 [[CAuthorizePull]; [CHmacAuth]; [CAuthorizeWorker]]
+                    [AReq 0; AReload; AReq 1; AReload; AReq 2])
+  = [[0; 0; 0]; [1]; [2; 2; 2]].
 Proof. vm_compute. reflexivity. Qed.
